@@ -52,7 +52,7 @@ theorem re_dict_SDict__clean_data :
     regexesOf "dict.py" "SDict._clean_data" = ["search:BLOCKCOMMENT\\d{6}", "search:INCLUDE\\d{6}", "search:LINECOMMENT\\d{6}", "findall:\\d{6}", "findall:\\d{6}", "findall:\\d{6}"] := rfl
 
 theorem re_formatter_Formatter_format_string :
-    regexesOf "formatter.py" "Formatter.format_string" = ["search:[$]", "search:^\\$\\w[\\w\\[\\]]*$", "search:[\\\"']", "search:[\\s:/\\\\;,{}()<>\\[\\]]|^#include"] := rfl
+    regexesOf "formatter.py" "Formatter.format_string" = ["search:[$]", "search:^\\$\\w[\\w\\[\\]]*$", "search:[\\\"']", "search:[\\s:/\\\\;,{}()<>\\[\\]]|^#(include|$)"] := rfl
 
 theorem re_formatter_NativeFormatter_format_string_with_nested_string :
     regexesOf "formatter.py" "NativeFormatter.format_string_with_nested_string" = ["search:\"", "search:'"] := rfl
